@@ -85,7 +85,16 @@ def run(ctx):
         return finish(ctx)
     fl = configs.flags("default")
     cases = suites.gen_hist_cases(ctx.rng.fork("hist"), ctx.tier)
-    ctx.correspond("HIST", cases, hb, db, flags=fl, coq_sample=6,
+    def hist_pred(c, i, m):
+        # the model's observations are PROVED equal to those of one update with the bytes the observed instance has seen
+        # (C03_* theorems); an implementation observation that differs from the model's is therefore a failing history
+        if i != m and not i.startswith("CRASH"):
+            a, b = i.split(" | "), m.split(" | ")
+            k = next((j for j, (x, y) in enumerate(zip(a, b)) if x != y), min(len(a), len(b)))
+            return ("observation #%d of this history is `%s`; one update with the bytes that instance has seen gives `%s` (verified model)"
+                    % (k, a[k][:70] if k < len(a) else "nothing", b[k][:70] if k < len(b) else "nothing"))
+        return None
+    ctx.correspond("HIST", cases, hb, db, flags=fl, coq_sample=6, predicate=hist_pred,
                    nontrivial=lambda c, i: len(c) > 40)
     # the property itself on the implementation
     pairs = chunk_property_pairs(ctx.rng.fork("chunk"), ctx.tier)
